@@ -196,7 +196,7 @@ pub fn check_program(out: &mut Out, names: &mut Ser, p: &Prog, src: &str, defect
             out.stat(&format!("eval:stuck-{r}"));
             if *r != "div-zero" {
                 out.hit("C01", &format!("stuck-{r}"), src, &format!("{origin} forward-value-ref={} unresolved-hole-in-elaboration={} holecopy-events={} stuck-term={}", has_forward_value_ref(&term), has_unresolved(&elab), holecopy_events() - hc0, val));
-            } else if tree_ok && !matches!(p.expected, Expected::DivZero | Expected::Unknown | Expected::Diverges) {
+            } else if !matches!(p.expected, Expected::DivZero | Expected::Unknown | Expected::Diverges) {
                 out.hit("C02", "division-by-zero-not-prescribed", src, &format!("{origin} expected {exp}"));
             }
         }
@@ -211,7 +211,7 @@ pub fn check_program(out: &mut Out, names: &mut Ser, p: &Prog, src: &str, defect
                 (Expected::Type, v) => matches!(v, Variant::Type | Variant::Integer | Variant::Boolean | Variant::Pi(..)),
                 _ => true,
             };
-            if !ok && tree_ok {
+            if !ok {
                 out.hit("C02", "value-differs-from-reference-semantics", src, &format!("{origin} expected {exp}, gram produced {val}"));
             } else if ok { out.stat("value:as-expected"); }
             // --- C04: the value has the shape of the reported type ------------------------------------
@@ -272,6 +272,20 @@ pub fn check_program(out: &mut Out, names: &mut Ser, p: &Prog, src: &str, defect
     }
 }
 
+// "naming a subexpression with a definition", applied to the universe itself: `u0 = type; …` with
+// occurrences of `type` replaced by `u0` (so that `type` is reached through a definition)
+fn alias_type(e: &E, rng: &mut Rng) -> Option<E> {
+    fn go(e: &mut E, rng: &mut Rng, n: &mut usize) {
+        if matches!(e, E::TyType) && rng.chance(2, 3) { *e = E::Var("u0_".to_owned()); *n += 1; return; }
+        for k in prog::kids_mut(e) { go(k, rng, n); }
+    }
+    let mut c = e.clone();
+    let mut n = 0;
+    go(&mut c, rng, &mut n);
+    if n == 0 { return None; }
+    Some(prog::mk_let(vec![("u0_".to_owned(), Some(E::TyType), E::TyType)], c))
+}
+
 pub fn run(out: &mut Out, tier: &str, seed: u64) {
     let mut names = Ser::new();
     names.name("_");
@@ -284,6 +298,14 @@ pub fn run(out: &mut Out, tier: &str, seed: u64) {
         let style = style_mix(&mut sub);
         let r = prog::render_ex(&p.e, &style, &mut sub);
         check_program(out, &mut names, &p, &r.text, r.reassoc_defect_sites > 0, &mut sub, i);
+        // the same program with the universe reached through a definition (1 in 3)
+        if i % 3 == 0 {
+            if let Some(e2) = alias_type(&p.e, &mut sub) {
+                let p2 = Prog { e: e2, ty_src: p.ty_src.clone(), expected: p.expected.clone(), features: vec!["universe-alias"], fully_annotated: p.fully_annotated };
+                let r2 = prog::render_ex(&p2.e, &style, &mut sub);
+                check_program(out, &mut names, &p2, &r2.text, false, &mut sub, i);
+            }
+        }
     }
     out.stat_add("programs", n as u64);
 }
